@@ -5,7 +5,7 @@
 # `./check --replay` understands, and reported as a VIOLATION line; exit 1. No crash: exit 0.
 target=$1; runs=${2:-200000}; maxlen=${3:-256}
 cd /verif/fuzz || exit 2
-export CARGO_NET_OFFLINE=true RUSTFLAGS="--cfg ruschm_verif"
+export CARGO_NET_OFFLINE=true RUSTFLAGS="--cfg ruschm_verif" ASAN_OPTIONS=detect_leaks=0   # interpreter instances leak Rc cycles by design of the SUT; leak reports at exit are not findings
 work=$(mktemp -d /tmp/rv-fuzz-XXXXXX)
 mkdir -p $work/corpus $work/artifacts
 seeds=""; [ -d seeds/$target ] && seeds=seeds/$target
